@@ -118,11 +118,26 @@ def native_search(sc, arm):
     return (m.group(1) if m else None), out
 
 
+NOSTD_MATRIX = [
+    ("", "no std, no alloc"),
+    ("alloc", "alloc only"),
+    ("simd", "no std + per-arch SIMD back ends"),
+    ("opt-default", "no std + default tables"),
+    ("opt-embedded-default,easy-functions", "no std + embedded tables + easy functions"),
+    ("alloc,easy-functions,opt-low-memory-buckets,opt-low-memory-hex-str-decode-min-table,opt-low-memory-hex-str-encode-min-table", "alloc + low-memory configuration"),
+    ("serde", "no std + serde"),
+    ("simd,unsafe", "no std + SIMD + unsafe"),
+]
+
+
 def build_nostd(sc):
+    """The property's build clause: the library compiles with std (and alloc) disabled - in every
+    feature combination of the matrix (rustc is the checker; not a solver obligation)."""
     recs = []
-    for feats, label in (("", "no std, no alloc"), ("alloc", "alloc only")):
-        r = base("build:nostd" + (".alloc" if feats else ""), "build", "crate fast-tlsh", "cargo build --no-default-features " + ("--features alloc" if feats else "") + " (" + label + ")")
-        tdir = os.path.join(sc.root, "target-nostd")
+    tdir = os.path.join(sc.root, "target-nostd")
+    for feats, label in NOSTD_MATRIX:
+        suffix = "" if not feats else "." + re.sub(r"[^a-z0-9]+", "_", feats)[:40]
+        r = base("build:nostd" + suffix, "build", "crate fast-tlsh", "cargo build --lib --no-default-features " + ("--features " + feats if feats else "") + " (" + label + ")")
         # extras run before the Kani overlay is applied: sc.repo is the pristine copy of /repo
         cmd = ["cargo", "build", "--manifest-path", os.path.join(sc.repo, CRATE, "Cargo.toml"), "--offline",
                "--no-default-features", "--target-dir", tdir, "--lib"]
@@ -135,9 +150,11 @@ def build_nostd(sc):
             r["verdict"] = "discharged"
         else:
             r["verdict"] = "failed"
-            r["reason"] = "library does not build without std" + ("" if feats else " and alloc") + ": " + first_error(out)
+            r["reason"] = "library does not build without std (features: %s): %s" % (feats or "none", first_error(out))
             r["failed_checks"] = [{"description": r["reason"][:300], "location": "cargo build"}]
             r["verifier_output"] = out[-4000:]
+            r["replay_outcome"] = "reproduced"
+            r["counterexample"] = "cargo build -p fast-tlsh --lib --no-default-features" + (" --features " + feats if feats else "")
         recs.append(r)
     return recs
 
